@@ -22,7 +22,7 @@ from . import common
 
 ID = 'C11'
 LEVEL = 'exploration'
-RUNS = {'quick': 2500, 'thorough': 60000}
+RUNS = {'quick': 6000, 'thorough': 60000}
 SIM_TIME_UNIT = 'API calls'
 RULE = ('seeded generation of (2-4 co-hosted specification objects of mixed kinds over shared variable names and shared caller '
         'data objects, an interleaving of their operations); non-trivial = at least two objects produced a non-constant finite '
